@@ -5,13 +5,12 @@ Imports Model + Generated + Drv only (no Mathlib), so that it links.
 Each property contributes `LLBuild.Drv.<Id>.modes`.
 -/
 import LLBuild.Drv.Common
-import LLBuild.Drv.C14
-import LLBuild.Drv.Engine
+import LLBuild.Drv.C17Load
 
 open LLBuild.Drv
 
 def allModes : List (String × Mode) :=
-  LLBuild.Drv.C14.modes ++ LLBuild.Drv.Engine.modes
+  LLBuild.Drv.C17Load.modes
 
 def main (args : List String) : IO UInt32 := do
   let stdin ← IO.getStdin
